@@ -529,11 +529,15 @@ impl<'tcx> Cx<'tcx> {
                     .s("aty", &self.ty_str(aty))
                     .end()
             }
-            Rvalue::UnaryOp(op, a) => Obj::new()
-                .s("k", "un")
-                .s("op", &format!("{:?}", op))
-                .raw("a", &self.operand(owner, body, a))
-                .end(),
+            Rvalue::UnaryOp(op, a) => {
+                let aty = a.ty(&body.local_decls, self.tcx);
+                Obj::new()
+                    .s("k", "un")
+                    .s("op", &format!("{:?}", op))
+                    .raw("a", &self.operand(owner, body, a))
+                    .s("aty", &self.ty_str(aty))
+                    .end()
+            }
             Rvalue::Discriminant(p) => {
                 Obj::new().s("k", "discr").raw("pl", &self.place(body, p)).end()
             }
